@@ -5,3 +5,12 @@ import VirtioVerif.Props.C06
 import VirtioVerif.Model.Queue
 import VirtioVerif.Lemmas.QueueFrame
 import VirtioVerif.Props.C05
+import VirtioVerif.Model.AbsQueue
+import VirtioVerif.Model.Bytes
+import VirtioVerif.Model.Blk
+import VirtioVerif.Lemmas.AbsQueue
+import VirtioVerif.Spec.Blk
+import VirtioVerif.Props.C14
+import VirtioVerif.Model.Net
+import VirtioVerif.Spec.Net
+import VirtioVerif.Props.C16
